@@ -364,6 +364,27 @@ func init() {
 			}
 			c16Check(c, kind, h, tail())
 		}
+		// a realistic background: a real profile's header (the repository's, else a typical v4 display header
+		// with the standard D50 illuminant), every single bit flipped and every 32-bit word moved by +/-1, +/-2:
+		// fields next to their standard values are values like any other
+		real := baseHeader()
+		copy(real[0:], []byte{0, 0, 2, 0x18, 'a', 'p', 'p', 'l', 4, 0, 0, 0, 'm', 'n', 't', 'r', 'R', 'G', 'B', ' ', 'X', 'Y', 'Z', ' ', 7, 0xe1, 0, 7, 0, 7, 0, 13, 0, 22, 0, 32, 'a', 'c', 's', 'p', 'A', 'P', 'P', 'L'})
+		copy(real[68:], []byte{0, 0, 0xf6, 0xd6, 0, 1, 0, 0, 0, 0, 0xd3, 0x2d})
+		if b, err := os.ReadFile(repoDir() + "/test-profiles/display-p3-v4-with-v2-desc.icc"); err == nil && len(b) >= 128 {
+			copy(real, b[:128])
+		}
+		for bit := 0; bit < 1024; bit++ {
+			h := append([]byte{}, real...)
+			h[bit/8] ^= 0x80 >> uint(bit%8)
+			c16Check(c, "real-header-bitflip", h, nil)
+		}
+		for w := 0; w < 32; w++ {
+			for _, dlt := range []uint32{1, 2, 0xffffffff, 0xfffffffe} {
+				h := append([]byte{}, real...)
+				binary.BigEndian.PutUint32(h[4*w:], binary.BigEndian.Uint32(h[4*w:])+dlt)
+				c16Check(c, "real-header-word+-", h, nil)
+			}
+		}
 		// truncated headers must be errors, never panics
 		for k := 0; k < 128; k++ {
 			h := baseHeader()[:k]
